@@ -96,6 +96,37 @@ pub fn build_trees(spec: &DagSpec) -> Vec<Tree> {
     pool
 }
 
+/// The trees of `spec`, where `spec` differs from the spec `base` was built
+/// from only in node `mi`: every entry that does not depend on that node is the
+/// *same allocation* as in `base` (Arc clone), the others are rebuilt.  The two
+/// roots are then different trees that share sub-trees by pointer.
+pub fn build_trees_sharing(spec: &DagSpec, base: &[Tree], mi: usize) -> Vec<Tree> {
+    let nv = spec.nvars as usize;
+    let mut pool: Vec<Tree> = base[..nv + mi].to_vec();
+    let mut dirty = vec![false; nv + mi];
+    for (k, n) in spec.nodes.iter().enumerate().skip(mi) {
+        let len = pool.len();
+        let (t, d) = match *n {
+            _ if k == mi => {
+                let t = match *n {
+                    NodeSpec::C(f) => Tree::constant(f.0),
+                    NodeSpec::U(op, a) => tree_unary(op, &pool[sel_index(a, len)]),
+                    NodeSpec::B(op, a, b) => tree_binary(op, &pool[sel_index(a, len)], &pool[sel_index(b, len)]),
+                };
+                (t, true)
+            }
+            NodeSpec::U(op, a) if dirty[sel_index(a, len)] => (tree_unary(op, &pool[sel_index(a, len)]), true),
+            NodeSpec::B(op, a, b) if dirty[sel_index(a, len)] || dirty[sel_index(b, len)] => {
+                (tree_binary(op, &pool[sel_index(a, len)], &pool[sel_index(b, len)]), true)
+            }
+            _ => (base[k + nv].clone(), false),
+        };
+        pool.push(t);
+        dirty.push(d);
+    }
+    pool
+}
+
 /// Reference values of every pool entry, un-rewritten, operation by operation
 fn ref_values(spec: &DagSpec, p: &[Fl]) -> Vec<f32> {
     let mut pool: Vec<f32> = (0..spec.nvars as usize).map(|i| p[i].0).collect();
@@ -385,6 +416,23 @@ fn meaning(dag: &DagSpec, points: &[Vec<Fl>], mutate: u16, case: &Case, cx: &mut
                 "tree-eq-too-coarse",
                 "a tree and its mutation (node {mi}) compare equal"
             );
+            // the same mutation, but every untouched sub-tree is the SAME
+            // allocation in both trees: pointer-equality shortcuts inside the
+            // comparison must not end it early
+            if nv + mi > 0 && !dag.nodes.is_empty() {
+                let t5 = build_trees_sharing(&d2, &trees, mi);
+                cx.ev.count("mutated_tree_comparisons_with_shared_subtrees");
+                ensure!(
+                    trees[root] != t5[root] && t5[root] != trees[root],
+                    "tree-eq-too-coarse",
+                    "a tree and its mutation (node {mi}) compare equal when their common sub-trees are shared by pointer"
+                );
+                ensure!(
+                    t5[root] == t3[root],
+                    "tree-eq",
+                    "the mutated tree built with shared sub-trees differs from the one built from scratch"
+                );
+            }
         }
     }
 
